@@ -135,6 +135,12 @@ def run(chk):
                {"rows": jrows, "rows2": jrows2}, True)
         expect({"op": "pc_joint", "rows": jrows, "rows2": jrows2, "sep": "|"},
                lambda d=df, e=df2, w=w: float(st.pc_joint(d, cols[:w], e, "|")), "pc_joint2[gap_token]", {"rows": jrows, "rows2": jrows2}, True)
+        if w >= 2:
+            # the second table holds the same columns in ANOTHER order: rows are compared column by column in the order of `on`
+            df2r = df2[cols[:w][::-1]]
+            expect({"op": "pc_joint", "rows": jrows, "rows2": jrows2, "sep": "_"},
+                   lambda d=df, e=df2r, w=w: float(st.pc_joint(d, cols[:w], e)), "pc_joint2[second table, columns reordered]",
+                   {"rows": jrows, "rows2": jrows2}, True)
         hm2 = has_missing or any(c is None for r in jrows2 for c in r)
         expect({"op": "pc_joint", "rows": jrows, "rows2": jrows2, "sep": "_"},
                lambda d=df, e=df2, w=w: float(st.pc_joint(d, cols[:w], e)), "pc_joint2" + ("[missing-cell]" if hm2 else ""),
@@ -148,6 +154,21 @@ def run(chk):
         jrows = [[str(x), str(y)] for x, y in zip(dfn["c1"], dfn["c2"])]
         expect({"op": "pc_table", "rows": jrows}, lambda d=dfn: float(st.pc(d)), "pc[table-numeric]", {"rows": jrows}, True)
         expect({"op": "pc_joint", "rows": jrows, "sep": "_"}, lambda d=dfn: float(st.pc_joint(d, ["c1", "c2"])), "pc_joint[numeric]", {"rows": jrows}, True)
+    # a column that happens to be called clone_count / count (an integer column like any other: every column is part of the row),
+    # and cells holding line-breaking characters
+    for _ in range(8 if not thorough else 40):
+        n = rng.randint(3, 8)
+        seqs_ = [rng.choice(["CASSA", "CASSB"]) for _ in range(n)]
+        cc_ = [rng.choice([1, 2, 5]) for _ in range(n)]
+        for cname_ in ("clone_count", "count", "size"):
+            dfc = pd.DataFrame({"CDR3B": seqs_, cname_: cc_})
+            jr = [[a_, str(b_)] for a_, b_ in zip(seqs_, cc_)]
+            expect({"op": "pc_table", "rows": jr}, lambda d=dfc: float(st.pc(d)), f"pc[table with an integer column named {cname_}]", {"rows": jr}, True)
+            expect({"op": "pc_table", "rows": jr, "rows2": jr[:2]}, lambda d=dfc: float(st.pc(d, d.iloc[:2])), f"pc2[table with an integer column named {cname_}]", {"rows": jr}, True)
+        brk = [rng.choice(["CA\nSS", "CASS", "CA", "SS", "CA\u2028SS", "CA\rSS"]) for _ in range(n)]
+        dfb = pd.DataFrame({"a": brk, "b": [rng.choice(["x", "y"]) for _ in range(n)]})
+        jb_ = [[a_.replace("\n", "<LF>").replace("\r", "<CR>").replace("\u2028", "<LS>"), b_] for a_, b_ in zip(dfb["a"], dfb["b"])]
+        expect({"op": "pc_table", "rows": jb_}, lambda d=dfb: float(st.pc(d)), "pc[table, cells with line breaks]", {"rows": jb_}, True)
     # two tables cut from ONE parent table with an integer column beside a float column, where only one of the two holds a missing
     # cell: a row's label must depend on the row alone (not on whether its table has a missing value elsewhere)
     for _ in range(10 if not thorough else 80):
